@@ -47,7 +47,7 @@ FLOORS = {
     "quick": {"calls_completed": 1, "missing_raised": 1, "missing_lookup_prefix_checked": 1,
               "missing_on_sibling": 1, "state_unchanged_checks": 1, "op_get": 1, "op_exists": 1, "op_set": 1,
               "op_delete": 1, "op_sete": 1, "op_traverse": 1, "op_traverse_from": 1, "in_batch_calls": 1,
-              "prune_calls": 1, "subsets_exhaustive": 1, "multi_round_retries": 1},
+              "prune_calls": 1, "subsets_exhaustive": 1, "multi_round_retries": 1, "savepoint_attempts": 1},
 }
 FLOORS["thorough"] = dict(FLOORS["quick"])
 
@@ -160,6 +160,32 @@ def run_case(case, ctx):
             except Exception as e:  # the twin itself fails: not this property's business
                 ctx.count("twin_failed")
                 return
+            if in_batch and kind in ("set", "delete", "sete") and (case.get("pseed", 0) + len(op[1])) % 3 == 0:
+                # the caller first tries the operation inside a savepoint (a block opened on the
+                # batch trie): a write that succeeds, then the operation, which may hit an absent
+                # node; whatever happens the savepoint is abandoned - and nothing may have happened
+                before_sp = snap(main)
+                outer_rc_before = hh.nz(dict(t.ref_count)) if prune else None
+
+                def savepoint():
+                    try:
+                        with main.squash_changes() as sp:
+                            sp.set(b"\x00savepoint", b"s" * 40)
+                            do_op(sp, op, start_node)
+                            raise hh.Boom()
+                    except (hh.Boom, MissingTrieNode):
+                        pass
+
+                cut(savepoint)
+                if snap(main) != before_sp:
+                    a_, b_ = before_sp, snap(main)
+                    what = "root" if a_[0] != b_[0] else ("database" if a_[1] != b_[1] else "reference counts")
+                    raise Violation("missing-refcount-changed" if what == "reference counts" else "missing-db-changed",
+                                    "%s(%s): an abandoned savepoint (left by an exception) changed the %s of the batch trie" % (kind, op[1], what))
+                if prune and hh.nz(dict(t.ref_count)) != outer_rc_before:
+                    raise Violation("missing-refcount-changed", "%s(%s): an abandoned savepoint inside the batch changed the reference counts of the OUTER trie "
+                                    "(the batch shares them)" % (kind, op[1]))
+                ctx.count("savepoint_attempts")
             asked = []
             rounds = 0
             hidden_at_start = len(db.hidden)
@@ -264,6 +290,8 @@ def run_case(case, ctx):
             raise Violation("missing-result-differs", "root after the committed batch differs from the complete-database twin")
         if not same_db(db, cdb):
             raise Violation("missing-state-differs", "database after the committed batch differs from the complete-database twin")
+        if prune and hh.nz(dict(t.ref_count)) != hh.nz(dict(ct.ref_count)):
+            raise Violation("missing-state-differs", "reference counts after the committed batch differ from the complete-database twin")
 
 
 def same_db(db, twin_db):
